@@ -2131,6 +2131,16 @@ package apd
 //@   ensures [num] base == 10 ==> (ret1 <==> uf_isnum(s) == 1) && (ret1 ==> val(z) == uf_numval(s))
 //@ define inlimitsB(C: int, E: int): bool = C >= 0 && -100000 <= E && E <= 100000 && -100000 <= E + nd10(C) - 1 && E + nd10(C) - 1 <= 100000
 //@ define TXT(s: []byte, neg: bool): bool = neg ==> len(s) > 0 && s[0] == 45
+// GramText: s is a finite numeric string of the General Decimal Arithmetic grammar, described by ghost parameters: an optional
+// sign (neg: '-', plus: '+'), a digit string - z zeros followed by the decimal text of C (every non-empty digit string has
+// this shape) - with an optional point after its first a digits, and an optional exponent part: the letter ech (E or e), an
+// optional sign character esg (0: none), ez zeros and the decimal text of X. GramExp is the exponent the text denotes for
+// the coefficient C, GramFrac the number of fraction digits.
+//@ define MantText(s: []byte, p: int, z: int, C: int, dot: bool, a: int): bool = ite(dot, 0 <= a && a <= z + nd10(C) && mseg(s, p, z, C, 0, a) && s[p + a] == 46 && mseg(s, p + a + 1, z, C, a, z + nd10(C) - a), mseg(s, p, z, C, 0, z + nd10(C)))
+//@ define ExpText(s: []byte, q: int, hase: bool, ech: int, esg: int, ez: int, X: int): bool = ite(hase, (ech == 69 || ech == 101) && s[q] == ech && (esg == 0 || esg == 43 || esg == 45) && (esg != 0 ==> s[q + 1] == esg) && filled(s, q + 1 + ite(esg == 0, 0, 1), ez, 48) && dseg(s, q + 1 + ite(esg == 0, 0, 1) + ez, X, 0, nd10(X)) && len(s) == q + 1 + ite(esg == 0, 0, 1) + ez + nd10(X), len(s) == q)
+//@ define GramText(s: []byte, neg: bool, plus: bool, z: int, C: int, dot: bool, a: int, hase: bool, ech: int, esg: int, ez: int, X: int): bool = !(neg && plus) && (neg ==> len(s) > 0 && s[0] == 45) && (plus ==> len(s) > 0 && s[0] == 43) && z >= 0 && C >= 0 && X >= 0 && ez >= 0 && MantText(s, ite(neg || plus, 1, 0), z, C, dot, a) && ExpText(s, ite(neg || plus, 1, 0) + z + nd10(C) + ite(dot, 1, 0), hase, ech, esg, ez, X)
+//@ define GramFrac(z: int, C: int, dot: bool, a: int): int = ite(dot, z + nd10(C) - a, 0)
+//@ define GramExp(z: int, C: int, dot: bool, a: int, hase: bool, esg: int, X: int): int = ite(hase, ite(esg == 45, -X, X), 0) - GramFrac(z, C, dot, a)
 // FinText: s is the text the formatter writes for the finite decimal (neg, C, E): plain notation (exponent <= 0) or scientific
 // notation with the letter ech (E or e; coefficients of at most 100001 digits: see the known finding rt_sci_long)
 //@ define FinText(s: []byte, neg: bool, C: int, E: int, ech: int): bool = TXT(s, neg) && ((E <= 0 && PlainText(s, ite(neg, 1, 0), C, E)) || ((ech == 69 || ech == 101) && nd10(C) <= 100001 && SciText(s, ite(neg, 1, 0), C, E, ech)))
@@ -2146,7 +2156,39 @@ package apd
 //@   props C04 C06 C01 C07 C13 C14
 //@   requires writable(d) && c != nil
 //@   assigns d
-//@   ghost gneg: bool, gC: int, gE: int, gech: int
+//@   ghost gneg: bool, gC: int, gE: int, gech: int, gplus: bool, gz: int, ga: int, gdot: bool, ghase: bool, gesg: int, gez: int, gX: int
+// Every grammatical finite numeric string (C14): accepted, with the sign, coefficient and exponent it denotes, when the
+// written exponent and the number of fraction digits are within +-100000 and the value lies inside the context's limits.
+//@   assert before (*Decimal).setExponent#1: {C14} [exps_gr0] ctxsane(c) && GramText(bytes(orig), gneg, gplus, gz, gC, gdot, ga, ghase, gech, gesg, gez, gX) && gX <= 100000 && !gdot && !ghase ==> len(exps) == 0 && val(d.Coeff) == gC
+//@   assert before (*Decimal).setExponent#1: {C14} [exps_gr1] ctxsane(c) && GramText(bytes(orig), gneg, gplus, gz, gC, gdot, ga, ghase, gech, gesg, gez, gX) && gX <= 100000 && gdot && !ghase ==> len(exps) == 1 && exps[0] == -GramFrac(gz, gC, gdot, ga) && val(d.Coeff) == gC
+//@   assert before (*Decimal).setExponent#1: {C14} [exps_gr2] ctxsane(c) && GramText(bytes(orig), gneg, gplus, gz, gC, gdot, ga, ghase, gech, gesg, gez, gX) && gX <= 100000 && !gdot && ghase ==> len(exps) == 1 && exps[0] == ite(gesg == 45, -gX, gX) && val(d.Coeff) == gC
+//@   assert before (*Decimal).setExponent#1: {C14} [exps_gr3] ctxsane(c) && GramText(bytes(orig), gneg, gplus, gz, gC, gdot, ga, ghase, gech, gesg, gez, gX) && gX <= 100000 && gdot && ghase ==> len(exps) == 2 && exps[0] == ite(gesg == 45, -gX, gX) && exps[1] == -GramFrac(gz, gC, gdot, ga) && val(d.Coeff) == gC
+//@   ensures {C14} [gr_fin0a] ctxsane(c) && GramText(bytes(s), gneg, gplus, gz, gC, gdot, ga, ghase, gech, gesg, gez, gX) && gX <= 100000 && GramFrac(gz, gC, gdot, ga) <= 100000 && inlimits0(c, gC, GramExp(gz, gC, gdot, ga, ghase, gesg, gX)) && !gdot && !ghase ==> ret1 == nil && ret0 == 0
+//@   ensures {C14} [gr_fin0b] ctxsane(c) && GramText(bytes(s), gneg, gplus, gz, gC, gdot, ga, ghase, gech, gesg, gez, gX) && gX <= 100000 && GramFrac(gz, gC, gdot, ga) <= 100000 && inlimits0(c, gC, GramExp(gz, gC, gdot, ga, ghase, gesg, gX)) && !gdot && !ghase ==> d.Form == Finite && d.Negative == gneg
+//@   ensures {C14} [gr_fin0c] ctxsane(c) && GramText(bytes(s), gneg, gplus, gz, gC, gdot, ga, ghase, gech, gesg, gez, gX) && gX <= 100000 && GramFrac(gz, gC, gdot, ga) <= 100000 && inlimits0(c, gC, GramExp(gz, gC, gdot, ga, ghase, gesg, gX)) && !gdot && !ghase ==> val(d.Coeff) == gC
+//@   ensures {C14} [gr_fin0d] ctxsane(c) && GramText(bytes(s), gneg, gplus, gz, gC, gdot, ga, ghase, gech, gesg, gez, gX) && gX <= 100000 && GramFrac(gz, gC, gdot, ga) <= 100000 && inlimits0(c, gC, GramExp(gz, gC, gdot, ga, ghase, gesg, gX)) && !gdot && !ghase ==> d.Exponent == GramExp(gz, gC, gdot, ga, ghase, gesg, gX)
+//@   ensures {C14} [gr_fin1a] ctxsane(c) && GramText(bytes(s), gneg, gplus, gz, gC, gdot, ga, ghase, gech, gesg, gez, gX) && gX <= 100000 && GramFrac(gz, gC, gdot, ga) <= 100000 && inlimits0(c, gC, GramExp(gz, gC, gdot, ga, ghase, gesg, gX)) && gdot && !ghase ==> ret1 == nil && ret0 == 0
+//@   ensures {C14} [gr_fin1b] ctxsane(c) && GramText(bytes(s), gneg, gplus, gz, gC, gdot, ga, ghase, gech, gesg, gez, gX) && gX <= 100000 && GramFrac(gz, gC, gdot, ga) <= 100000 && inlimits0(c, gC, GramExp(gz, gC, gdot, ga, ghase, gesg, gX)) && gdot && !ghase ==> d.Form == Finite && d.Negative == gneg
+//@   ensures {C14} [gr_fin1c] ctxsane(c) && GramText(bytes(s), gneg, gplus, gz, gC, gdot, ga, ghase, gech, gesg, gez, gX) && gX <= 100000 && GramFrac(gz, gC, gdot, ga) <= 100000 && inlimits0(c, gC, GramExp(gz, gC, gdot, ga, ghase, gesg, gX)) && gdot && !ghase ==> val(d.Coeff) == gC
+//@   ensures {C14} [gr_fin1d] ctxsane(c) && GramText(bytes(s), gneg, gplus, gz, gC, gdot, ga, ghase, gech, gesg, gez, gX) && gX <= 100000 && GramFrac(gz, gC, gdot, ga) <= 100000 && inlimits0(c, gC, GramExp(gz, gC, gdot, ga, ghase, gesg, gX)) && gdot && !ghase ==> d.Exponent == GramExp(gz, gC, gdot, ga, ghase, gesg, gX)
+//@   ensures {C14} [gr_fin2a] ctxsane(c) && GramText(bytes(s), gneg, gplus, gz, gC, gdot, ga, ghase, gech, gesg, gez, gX) && gX <= 100000 && GramFrac(gz, gC, gdot, ga) <= 100000 && inlimits0(c, gC, GramExp(gz, gC, gdot, ga, ghase, gesg, gX)) && !gdot && ghase ==> ret1 == nil && ret0 == 0
+//@   ensures {C14} [gr_fin2b] ctxsane(c) && GramText(bytes(s), gneg, gplus, gz, gC, gdot, ga, ghase, gech, gesg, gez, gX) && gX <= 100000 && GramFrac(gz, gC, gdot, ga) <= 100000 && inlimits0(c, gC, GramExp(gz, gC, gdot, ga, ghase, gesg, gX)) && !gdot && ghase ==> d.Form == Finite && d.Negative == gneg
+//@   ensures {C14} [gr_fin2c] ctxsane(c) && GramText(bytes(s), gneg, gplus, gz, gC, gdot, ga, ghase, gech, gesg, gez, gX) && gX <= 100000 && GramFrac(gz, gC, gdot, ga) <= 100000 && inlimits0(c, gC, GramExp(gz, gC, gdot, ga, ghase, gesg, gX)) && !gdot && ghase ==> val(d.Coeff) == gC
+//@   ensures {C14} [gr_fin2d] ctxsane(c) && GramText(bytes(s), gneg, gplus, gz, gC, gdot, ga, ghase, gech, gesg, gez, gX) && gX <= 100000 && GramFrac(gz, gC, gdot, ga) <= 100000 && inlimits0(c, gC, GramExp(gz, gC, gdot, ga, ghase, gesg, gX)) && !gdot && ghase ==> d.Exponent == GramExp(gz, gC, gdot, ga, ghase, gesg, gX)
+//@   ensures {C14} [gr_fin3a] ctxsane(c) && GramText(bytes(s), gneg, gplus, gz, gC, gdot, ga, ghase, gech, gesg, gez, gX) && gX <= 100000 && GramFrac(gz, gC, gdot, ga) <= 100000 && inlimits0(c, gC, GramExp(gz, gC, gdot, ga, ghase, gesg, gX)) && gdot && ghase ==> ret1 == nil && ret0 == 0
+//@   ensures {C14} [gr_fin3b] ctxsane(c) && GramText(bytes(s), gneg, gplus, gz, gC, gdot, ga, ghase, gech, gesg, gez, gX) && gX <= 100000 && GramFrac(gz, gC, gdot, ga) <= 100000 && inlimits0(c, gC, GramExp(gz, gC, gdot, ga, ghase, gesg, gX)) && gdot && ghase ==> d.Form == Finite && d.Negative == gneg
+//@   ensures {C14} [gr_fin3c] ctxsane(c) && GramText(bytes(s), gneg, gplus, gz, gC, gdot, ga, ghase, gech, gesg, gez, gX) && gX <= 100000 && GramFrac(gz, gC, gdot, ga) <= 100000 && inlimits0(c, gC, GramExp(gz, gC, gdot, ga, ghase, gesg, gX)) && gdot && ghase ==> val(d.Coeff) == gC
+//@   ensures {C14} [gr_fin3d] ctxsane(c) && GramText(bytes(s), gneg, gplus, gz, gC, gdot, ga, ghase, gech, gesg, gez, gX) && gX <= 100000 && GramFrac(gz, gC, gdot, ga) <= 100000 && inlimits0(c, gC, GramExp(gz, gC, gdot, ga, ghase, gesg, gX)) && gdot && ghase ==> d.Exponent == GramExp(gz, gC, gdot, ga, ghase, gesg, gX)
+//@   assert before strings.IndexByte#2: {C14} [dotpos_gr] ctxsane(c) && GramText(bytes(orig), gneg, gplus, gz, gC, gdot, ga, ghase, gech, gesg, gez, gX) && gX <= 100000 && gdot ==> len(bytes(arg0)) == gz + nd10(gC) + 1 && bytes(arg0)[ga] == 46
+//@   assert before strconv.ParseInt#1: {C14} [epos_gr] ctxsane(c) && GramText(bytes(orig), gneg, gplus, gz, gC, gdot, ga, ghase, gech, gesg, gez, gX) && gX <= 100000 && ghase ==> i == gz + nd10(gC) + ite(gdot, 1, 0) && len(bytes(now(s))) == len(bytes(orig)) - ite(gneg || gplus, 1, 0)
+//@   assert before strconv.ParseInt#1: {C14} [expo_gr] ctxsane(c) && GramText(bytes(orig), gneg, gplus, gz, gC, gdot, ga, ghase, gech, gesg, gez, gX) && gX <= 100000 && ghase ==> uf_ntext(arg0, gesg, gez, gX) == 1
+//@   assert before (*BigInt).SetString#1: {C14} [mant_gr0] ctxsane(c) && GramText(bytes(orig), gneg, gplus, gz, gC, gdot, ga, ghase, gech, gesg, gez, gX) && gX <= 100000 && !gdot && !ghase ==> uf_utext(now(s), gz, gC) == 1
+//@   assert before (*BigInt).SetString#1: {C14} [mant_gr1] ctxsane(c) && GramText(bytes(orig), gneg, gplus, gz, gC, gdot, ga, ghase, gech, gesg, gez, gX) && gX <= 100000 && gdot && !ghase ==> uf_utext(now(s), gz, gC) == 1
+//@   assert before (*BigInt).SetString#1: {C14} [mant_gr2] ctxsane(c) && GramText(bytes(orig), gneg, gplus, gz, gC, gdot, ga, ghase, gech, gesg, gez, gX) && gX <= 100000 && !gdot && ghase ==> uf_utext(now(s), gz, gC) == 1
+//@   assert before (*BigInt).SetString#1: {C14} [m3d] ctxsane(c) && GramText(bytes(orig), gneg, gplus, gz, gC, gdot, ga, ghase, gech, gesg, gez, gX) && gX <= 100000 && gdot && ghase ==> len(bytes(now(s))) == gz + nd10(gC)
+//@   assert before (*BigInt).SetString#1: {C14} [m3a] ctxsane(c) && GramText(bytes(orig), gneg, gplus, gz, gC, gdot, ga, ghase, gech, gesg, gez, gX) && gX <= 100000 && gdot && ghase ==> mseg(bytes(now(s)), 0, gz, gC, 0, ga)
+//@   assert before (*BigInt).SetString#1: {C14} [m3b] ctxsane(c) && GramText(bytes(orig), gneg, gplus, gz, gC, gdot, ga, ghase, gech, gesg, gez, gX) && gX <= 100000 && gdot && ghase ==> mseg(bytes(now(s)), ga, gz, gC, ga, gz + nd10(gC) - ga)
+//@   assert before (*BigInt).SetString#1: {C14} [mant_gr3] ctxsane(c) && GramText(bytes(orig), gneg, gplus, gz, gC, gdot, ga, ghase, gech, gesg, gez, gX) && gX <= 100000 && gdot && ghase ==> uf_utext(now(s), gz, gC) == 1
 //@   ensures {C13,C14} [rt_inf] DecText(bytes(s), 0, Infinite, gneg, 0, 0, 71) ==> ret1 == nil && ret0 == 0 && d.Form == Infinite && d.Negative == gneg && val(d.Coeff) == 0 && d.Exponent == 0
 //@   ensures {C13,C14} [rt_nan] DecText(bytes(s), 0, NaN, gneg, 0, 0, 71) ==> ret1 == nil && ret0 == 0 && d.Form == NaN && d.Negative == gneg && val(d.Coeff) == 0 && d.Exponent == 0
 // Finite texts (C13): if the text is what the formatter writes for (gneg, gC, gE) - plain notation with exponent <= 0, or
@@ -2173,7 +2215,8 @@ package apd
 //@   assert before (*Context).SetString#1: [basectx] BaseContext.Precision == 0 && BaseContext.MaxExponent == 100000 && BaseContext.MinExponent == -100000
 //@   requires writable(d)
 //@   assigns d
-//@   ghost gneg: bool, gC: int, gE: int, gech: int, gform: int
+//@   ghost gneg: bool, gC: int, gE: int, gech: int, gform: int, gplus: bool, gz: int, ga: int, gdot: bool, ghase: bool, gesg: int, gez: int, gX: int
+//@   ensures {C14} [gr_fin] GramText(bytes(s), gneg, gplus, gz, gC, gdot, ga, ghase, gech, gesg, gez, gX) && gX <= 100000 && GramFrac(gz, gC, gdot, ga) <= 100000 && inlimitsB(gC, GramExp(gz, gC, gdot, ga, ghase, gesg, gX)) ==> ret2 == nil && ret0 == d && ret1 == 0 && d.Form == Finite && d.Negative == gneg && val(d.Coeff) == gC && d.Exponent == GramExp(gz, gC, gdot, ga, ghase, gesg, gX)
 //@   ensures {C13,C14} [rt_fin] inlimitsB(gC, gE) && FinText(bytes(s), gneg, gC, gE, gech) ==> ret2 == nil && ret0 == d && ret1 == 0 && d.Form == Finite && d.Negative == gneg && val(d.Coeff) == gC && d.Exponent == gE
 //@   ensures {C13,C14} [rt_spec] SpecText(bytes(s), gform, gneg) ==> ret2 == nil && ret0 == d && d.Form == gform && d.Negative == gneg
 //@   ensures [wf] ret2 == nil ==> inv(d) && ret0 == d
@@ -2182,7 +2225,8 @@ package apd
 //@   exported
 //@   requires writable(d)
 //@   assigns d
-//@   ghost gneg: bool, gC: int, gE: int, gech: int, gform: int
+//@   ghost gneg: bool, gC: int, gE: int, gech: int, gform: int, gplus: bool, gz: int, ga: int, gdot: bool, ghase: bool, gesg: int, gez: int, gX: int
+//@   ensures {C14} [gr_fin] p0ctx(c) && GramText(bytes(s), gneg, gplus, gz, gC, gdot, ga, ghase, gech, gesg, gez, gX) && gX <= 100000 && GramFrac(gz, gC, gdot, ga) <= 100000 && inlimits0(c, gC, GramExp(gz, gC, gdot, ga, ghase, gesg, gX)) ==> ret2 == nil && ret0 == d && ret1 == 0 && d.Form == Finite && d.Negative == gneg && val(d.Coeff) == gC && d.Exponent == GramExp(gz, gC, gdot, ga, ghase, gesg, gX)
 //@   ensures {C13,C14} [rt_fin] p0ctx(c) && inlimits0(c, gC, gE) && FinText(bytes(s), gneg, gC, gE, gech) ==> ret2 == nil && ret0 == d && ret1 == 0 && d.Form == Finite && d.Negative == gneg && val(d.Coeff) == gC && d.Exponent == gE
 //@   ensures {C13,C14} [rt_spec] p0ctx(c) && SpecText(bytes(s), gform, gneg) ==> ret2 == nil && ret0 == d && d.Form == gform && d.Negative == gneg
 //@   ensures [wf] ret2 == nil ==> inv(d) && ret0 == d
@@ -2194,7 +2238,8 @@ package apd
 //@   exported
 //@   assigns nothing
 //@   allocates
-//@   ghost gneg: bool, gC: int, gE: int, gech: int, gform: int
+//@   ghost gneg: bool, gC: int, gE: int, gech: int, gform: int, gplus: bool, gz: int, ga: int, gdot: bool, ghase: bool, gesg: int, gez: int, gX: int
+//@   ensures {C14} [gr_fin] p0ctx(c) && GramText(bytes(s), gneg, gplus, gz, gC, gdot, ga, ghase, gech, gesg, gez, gX) && gX <= 100000 && GramFrac(gz, gC, gdot, ga) <= 100000 && inlimits0(c, gC, GramExp(gz, gC, gdot, ga, ghase, gesg, gX)) ==> ret2 == nil && ret0 != nil && ret1 == 0 && ret0.Form == Finite && ret0.Negative == gneg && val(ret0.Coeff) == gC && ret0.Exponent == GramExp(gz, gC, gdot, ga, ghase, gesg, gX)
 //@   ensures {C13,C14} [rt_fin] p0ctx(c) && inlimits0(c, gC, gE) && FinText(bytes(s), gneg, gC, gE, gech) ==> ret2 == nil && ret0 != nil && ret1 == 0 && ret0.Form == Finite && ret0.Negative == gneg && val(ret0.Coeff) == gC && ret0.Exponent == gE
 //@   ensures {C13,C14} [rt_spec] p0ctx(c) && SpecText(bytes(s), gform, gneg) ==> ret2 == nil && ret0 != nil && ret0.Form == gform && ret0.Negative == gneg
 //@   ensures [wf] ret2 == nil ==> ret0 != nil && inv(ret0)
@@ -2204,7 +2249,8 @@ package apd
 //@   assigns nothing
 //@   allocates
 //@   assert before (*Context).NewFromString#1: [basectx] BaseContext.Precision == 0 && BaseContext.MaxExponent == 100000 && BaseContext.MinExponent == -100000
-//@   ghost gneg: bool, gC: int, gE: int, gech: int, gform: int
+//@   ghost gneg: bool, gC: int, gE: int, gech: int, gform: int, gplus: bool, gz: int, ga: int, gdot: bool, ghase: bool, gesg: int, gez: int, gX: int
+//@   ensures {C14} [gr_fin] GramText(bytes(s), gneg, gplus, gz, gC, gdot, ga, ghase, gech, gesg, gez, gX) && gX <= 100000 && GramFrac(gz, gC, gdot, ga) <= 100000 && inlimitsB(gC, GramExp(gz, gC, gdot, ga, ghase, gesg, gX)) ==> ret2 == nil && ret0 != nil && ret1 == 0 && ret0.Form == Finite && ret0.Negative == gneg && val(ret0.Coeff) == gC && ret0.Exponent == GramExp(gz, gC, gdot, ga, ghase, gesg, gX)
 //@   ensures {C13,C14} [rt_fin] inlimitsB(gC, gE) && FinText(bytes(s), gneg, gC, gE, gech) ==> ret2 == nil && ret0 != nil && ret1 == 0 && ret0.Form == Finite && ret0.Negative == gneg && val(ret0.Coeff) == gC && ret0.Exponent == gE
 //@   ensures {C13,C14} [rt_spec] SpecText(bytes(s), gform, gneg) ==> ret2 == nil && ret0 != nil && ret0.Form == gform && ret0.Negative == gneg
 //@   ensures [wf] ret2 == nil ==> ret0 != nil && inv(ret0)
